@@ -262,6 +262,14 @@ func genFramePlan(rt *rapid.T, cells []cell) framePlan {
 			p.Frame.Extra = append(p.Frame.Extra, common.RDIB{Len: uint8(2 + n), Type: rapid.SampledFrom([]uint8{3, 4, 5, 0xfe}).Draw(rt, "kept-type"), Body: body})
 		}
 	}
+	if c.kind == "searchres" && rapid.Bool().Draw(rt, "blocks-behind-search-response") {
+		// further well-formed description blocks behind the two mandatory ones of a search response (real gateways send
+		// them): whatever the decoder makes of them, decoding, re-encoding and decoding again gives the same value
+		p.Frame.Extra = common.GenValidDIBs(rt)
+		if len(p.Frame.Extra) == 0 {
+			p.Frame.Extra = []common.RDIB{{Len: 4, Type: 0xfe, Body: []byte{0xa1, 0xa2}}}
+		}
+	}
 	if rapid.IntRange(0, 2).Draw(rt, "used-destination") == 0 {
 		p.Prev = common.GenFrame(rt, c.kind, c.cemiKind)
 	}
